@@ -505,6 +505,11 @@ func c11Run(c *Ctx) {
 		strLen, arrLen = 4, 4
 	}
 	strs := c11Strings(strLen)
+	// strings that look like numbers, or almost
+	for _, x := range []string{"-", "+", "-5", "+5", "12", "007", "-0", "99999999999999999999", "9223372036854775807", "9223372036854775808", "-9223372036854775808", "-9223372036854775809",
+		"1.5", " 12", "12 ", "1e3", "0x10", "1_000", "١٢", "--5", "5-"} {
+		strs = append(strs, vStr(x))
+	}
 	if !c.Thorough() {
 		strs = append(strs, vStr("héllo"), vStr("éa日"), vStr("aBé"), vStr("日本語"), vStr(" a "), vStr("a,B"))
 	}
